@@ -144,7 +144,7 @@ def run(ctx):
                 continue
             if not ctx.thorough and l["c"] == 3:
                 continue
-            for pat in ("zero", "ones", "min", "max", "count", "rand") if not ctx.thorough else ("zero", "ones", "min", "max", "one", "count", "rand", "rand"):
+            for pat in ("zero", "ones", "min", "max", "count", "rand", "fpedge", "small") if not ctx.thorough else ("zero", "ones", "min", "max", "one", "count", "rand", "rand", "fpedge", "fpedge", "small"):
                 P0 = build.zero_hp(l, walk.fill(l, pat, rng, cfgdb))
                 yield ("c03", {"_k": "rt:%d:%s:%s" % (li, pat, P0.hex()[:48]), "lay": l, "P0": P0.hex(), "only": None})
             # (ii) random subset: drop ~half of the non-structural attributes
@@ -171,6 +171,79 @@ def run(ctx):
 
     run_batch(ctx, MODULE, CFG, gen_hist(), build.OBSERVERS, sigfn, negfn, chunk=5000)
     ctx.extra["hostile_histories"] = len(hists)
+    # (v) concurrent first use: threads build messages with large repeating groups at the same moment in a fresh interpreter; what each
+    # of them builds, and what is built sequentially afterwards, is judged like every other construction
+    biglays = [l for l in walk.load_layouts(ctx, "MC_Walk_big.cfg") if l["reachable"] and l["pbf"] and l["m"] in (0, 1)]
+
+    def sigmt(o, i, ev, v):
+        # (the event may be a racer's or the later construction's: attribute the signature to the layout the event names)
+        cand = [i["after"]] + list(i.get("racers", []))
+        inp = next((x for x in cand if x["lay"]["cls"] == ev.get("cls") and x["lay"]["id"] == ev.get("id") and x["lay"]["m"] == ev.get("m")), i["after"])
+        return sigfn(o, inp, ev, v)
+
+    def gen_mt():
+        grouped = [l for l in biglays if l["c"] >= 100 and not l["name"].startswith("CFG-VAL")][:6] or [l for l in lays if l["reachable"] and l["pbf"] and l["c"] == 3][:6]
+        for rep in range(10 if not ctx.thorough else 60):
+            racers = []
+            for l in rng.sample(grouped, min(len(grouped), 3)):
+                P0 = build.zero_hp(l, walk.fill(l, "count", rng, cfgdb))
+                racers.append({"lay": l, "P0": P0.hex(), "only": None, "synthkw": 1})
+            la = max(grouped, key=lambda l: l["c"]) if rep % 2 else rng.choice(grouped)
+            after = {"lay": la, "P0": build.zero_hp(la, walk.fill(la, "count", rng, cfgdb)).hex(), "only": None, "synthkw": 1}
+            for ti in (-1, 0, 1):
+                c = {"_k": "mt:%d:%d" % (rep, ti), "racers": racers, "after": after, "threads": 4, "thread_index": ti}
+                if ti >= 0:
+                    c["after"] = racers[ti % len(racers)]  # (the event returned is that racer's)
+                yield ("c03mt", c)
+
+    def gen_preempt():
+        # deterministic single pre-emptions of a construction with a 12-item group (fresh interpreter each; stride over the source lines)
+        small = []
+        for l in lays:
+            # messages whose counted group really is populated from keywords (3 items): the construction round-trips sequentially
+            if l["reachable"] and l["pbf"] and l["c"] == 3 and l["m"] in (0, 1) and l["fixes"] and any(e["n"].endswith("_03") for e in l["lay"]):
+                probe = {"lay": l, "P0": build.zero_hp(l, walk.fill(l, "count", rng, cfgdb)).hex(), "only": None, "synthkw": 1}
+                ev = build.obs_c03(probe)
+                if ev["out"] == "msg" and bytes(ev["P"]).hex() == probe["P0"]:
+                    small.append(l)
+            if len(small) >= 12:
+                break
+        if len(small) < 2:
+            return
+        la, lb = small[0], small[min(7, len(small) - 1)]
+        ctx.extra["preemption_racers"] = [la["name"], lb["name"]]
+        bigafter = next((l for l in biglays if l["c"] >= 100 and l["name"] in ("NAV-SAT", "RXM-RAWX", "NAV-SBAS", "RXM-SFRBX", "CFG-GNSS")), None)
+        mk = lambda l: {"lay": l, "P0": build.zero_hp(l, walk.fill(l, "count", rng, cfgdb)).hex(), "only": None, "synthkw": 1}  # noqa: E731
+        # EVERY source line of the first racer's construction is a pre-emption point (each against a freshly imported library); the
+        # sweep is split over 14 child interpreters.  What is built afterwards has MORE group items than anything built during the race
+        racers = [mk(la), mk(lb)]
+        after = mk(small[-1]) if bigafter is None else mk(bigafter)
+        # number of source lines the first racer's construction executes (measured on this tree), so that the sweep covers all of it
+        import os as _os
+        import sys as _sys
+
+        from ..common import REPO as _REPO
+
+        _src = _os.path.join(_REPO, "src")
+        _n = [0]
+
+        def _loc(f, e, a):
+            if e == "line":
+                _n[0] += 1
+            return _loc
+
+        _sys.settrace(lambda f, e, a: _loc if f.f_code.co_filename.startswith(_src) else None)
+        try:
+            build.obs_c03(racers[0])
+        finally:
+            _sys.settrace(None)
+        nlines = min(_n[0] + 20, 4000 if not ctx.thorough else 20000)
+        ctx.extra["preemption_points"] = nlines
+        for part in range(14):
+            ks = list(range(1 + part, nlines, 14))
+            yield ("c03mt", {"_k": "sweep:%d" % part, "racers": racers, "after": after, "ks": ks})
+
+    run_batch(ctx, MODULE, CFG, list(gen_mt()) + list(gen_preempt()), build.OBSERVERS, sigmt, negfn, chunk=5000, parallel="threads")
     ctx.exhaustive = False
     ctx.assumptions += ["values are presented to the constructor exactly as the parser reported them for the same bytes",
                         "high-precision (_HP*) companion fields are zero in round-trip inputs (they fold into their base attribute when parsed)"]
